@@ -46,8 +46,8 @@ ASSUMPTIONS = [
     "self-normalised importance sampling is documented as biased and is not asserted",
 ]
 BUDGET = {
-    "quick": dict(cases=270, shards=4, timeout=600),
-    "thorough": dict(cases=5400, shards=16, timeout=3000),
+    "quick": dict(cases=270, shards=4, timeout=900),
+    "thorough": dict(cases=3600, shards=16, timeout=3000),
 }
 CLASSES = [
     "direct", "direct_cv", "direct_log", "direct_cv_detached",
@@ -79,10 +79,10 @@ _EV_Q = {
 _EV_X = {
     "SimpleRandomSamplingWithoutReplacement.sample": 100, "simple_random_sampling_without_replacement": 50,
     "SimpleRandomSamplingWithoutReplacement.enumerate_support": 90,
-    "binomial_coefficient": 70, "enumerate_binary_sequences_with_cardinality": 40,
-    "enumerate_binary_sequences": 10, "enumerate_vocab_sequences": 10,
+    "binomial_coefficient": 60, "enumerate_binary_sequences_with_cardinality": 30,
+    "enumerate_binary_sequences": 8, "enumerate_vocab_sequences": 10,
     "assert:srswor-cardinality": 220, "assert:srswor-support-sums-to-one": 90,
-    "assert:binomial-coefficient": 70, "assert:enumeration": 70,
+    "assert:binomial-coefficient": 60, "assert:enumeration": 55,
     "bernoulli-interposed": 550,
 }
 FLOORS = {
@@ -94,11 +94,11 @@ FLOORS = {
         "distinct": 500,
     },
     "thorough": {
-        "events": dict({k: v * 40 for k, v in _EV_Q.items()}, **{k: v * 6 for k, v in _EV_X.items()}),
-        "classes": dict({c: 1900 for c in CLASSES}, srswor_exhaustive=275, comb_exhaustive=130, hostile_uniforms=3000),
+        "events": dict({k: v * 25 for k, v in _EV_Q.items()}, **{k: v * 4 for k, v in _EV_X.items()}),
+        "classes": dict({c: 1500 for c in CLASSES}, srswor_exhaustive=275, comb_exhaustive=140, hostile_uniforms=2500),
         "stats": {"sample-tuples-driven": 100000, "quadrature-points": 250000000},
         "sets": {"estimator-configurations": 400, "srswor-total-given": 28},
-        "distinct": 30000,
+        "distinct": 25000,
     },
 }
 EXHAUSTIVE = {"quick": False, "thorough": False}
@@ -524,7 +524,11 @@ def _exec_estimator(case, mon):
         vals = out.detach().double()
         grads = []
         for j in range(nout):
-            gs = torch.autograd.grad(out[j], leaves, retain_graph=True, allow_unused=True)
+            if not out.requires_grad:  # nothing reaches the parameters: the gradient of this call is zero
+                mon.stat("result-without-gradient")
+                gs = [None] * len(leaves)
+            else:
+                gs = torch.autograd.grad(out[j], leaves, retain_graph=True, allow_unused=True)
             grads.append([torch.zeros_like(l).double() if g is None else g.detach().double()
                           for g, l in zip(gs, leaves)])
         return vals, grads
